@@ -34,11 +34,16 @@ def script_for(proto, frames, cuts, rng):
     b.op(op="resolve", how="ok")
     b.op(op="quiesce")
     prev = 0
+    # segments arrive back to back, or separated by 0..3 loop iterations, or by time (a segment delayed
+    # by a retransmission: 125 ms .. 30 s, including around any round number a timer might use)
+    timed = rng.random() < 0.5
     for p in list(cuts) + [len(stream)]:
         b.op(op="feed", b=stream[prev:p])
         k = rng.randrange(0, 4)
         if k:
             b.op(op="step", k=k)
+        if timed and p < len(stream) and rng.random() < 0.7:
+            b.op(op="advance", by=rng.choice([125, 1000, 2000, 4875, 5000, 5125, 10000, 29875, 30125]))
         prev = p
     b.op(op="quiesce")
     b.call("close")
